@@ -11,7 +11,13 @@ PROPERTY = "C08"
 
 ALPHA = [E.DRAIN, E.TURN, E.TIMER, E.START, E.FINISH, E.DISCONNECT, E.FORCE, E.CANCEL, E.CONNECT_OK, E.CONNECT_ERR,
          E.D_HELLO, E.D_CONNECT, E.D_GARBAGE, E.D_DISCREQ, E.D_DISCRESP, E.D_MSG, E.D_BADPAYLOAD, E.EOF, E.RESET,
-         E.WRITEFAIL, E.FLUSH, E.D_PINGREQ, E.LONGWAIT, E.RESOLVE_OK]
+         E.WRITEFAIL, E.FLUSH, E.D_PINGREQ, E.LONGWAIT, E.RESOLVE_OK, E.REQUEST]
+# quick tier: without the events that only add orderings of already covered effects
+ALPHA_Q = [E.DRAIN, E.TURN, E.TIMER, E.FINISH, E.DISCONNECT, E.FORCE, E.CANCEL, E.CONNECT_OK, E.CONNECT_ERR,
+           E.D_HELLO, E.D_CONNECT, E.D_GARBAGE, E.D_DISCREQ, E.D_MSG, E.D_BADPAYLOAD, E.EOF, E.RESET,
+           E.WRITEFAIL, E.D_PINGREQ, E.REQUEST]
+if shard_int("QA", 0):
+    ALPHA = ALPHA_Q
 NA = len(ALPHA)
 SH0 = shard_int("SH0", 0)
 STAGE = shard_int("STAGE", 0)
@@ -88,9 +94,9 @@ def h08_4(a0: int, a1: int, a2: int, a3: int) -> bool:
     return _run([a0, a1, a2, a3])
 
 
-def _enabled_first(stage: int, noise: int = 0) -> list:
+def _enabled_first(stage: int, noise: int = 0, alpha=None) -> list:
     out = []
-    for i, ev in enumerate(ALPHA):
+    for i, ev in enumerate(alpha or ALPHA):
         s = Scenario(stage, world_kw={"noise_psk": PSK} if noise else None)
         try:
             if s.apply(ev):
@@ -105,13 +111,14 @@ def shards(tier: str) -> list:
     stages = [E.ST_RESOLVING, E.ST_CONNECTING, E.ST_OPENED, E.ST_HELLO_SENT, E.ST_CONNECTED, E.ST_DISCONNECTING]
     fn = "h08_3" if tier == "quick" else "h08_4"
     for st, nz in [(x, 0) for x in stages] + [(E.ST_HELLO_SENT, 1)]:
-        for i in _enabled_first(st, nz):
-            out.append({"fn": fn, "env": {"STAGE": st, "SH0": i, "NOISE": nz}, "cond_timeout": 600 if tier == "quick" else 2400, "path_timeout": 60,
-                        "desc": f"stage {E.STAGE_NAMES[st]}{' (noise: handshake pending)' if nz else ''}, first event {E.NAMES[ALPHA[i]]}, then {2 if tier == 'quick' else 3} symbolic events; audit after the close"})
+        alpha = ALPHA_Q if tier == "quick" else None
+        for i in _enabled_first(st, nz, alpha):
+            out.append({"fn": fn, "env": {"STAGE": st, "SH0": i, "NOISE": nz, "QA": 1 if tier == "quick" else 0}, "cond_timeout": 600 if tier == "quick" else 2400, "path_timeout": 60,
+                        "desc": f"stage {E.STAGE_NAMES[st]}{' (noise: handshake pending)' if nz else ''}, first event {E.NAMES[(alpha or ALPHA)[i]]}, then {2 if tier == 'quick' else 3} symbolic events; audit after the close"})
     return out
 
 
-BOUNDS = {"quick": "6 lifecycle stages (resolving, connecting, socket opened, hello sent, connected, disconnecting) x 3 events from a 24-event alphabet, incl. trailing device frames in the closing chunk and same-turn combinations",
+BOUNDS = {"quick": "6 lifecycle stages (resolving, connecting, socket opened, hello sent, connected, disconnecting) x 3 events from a 20-event alphabet (thorough: 25 events), incl. trailing device frames in the closing chunk and same-turn combinations",
           "thorough": "same with 4 events"}
 OUTSIDE = ["sequences longer than the bound", "noise transport (frame-helper close on the noise path is covered by C04)"]
 ASSUMPTIONS = ["SimLoop/SimTransport/FakeSock model of asyncio and the socket (see C05)", "audit runs after the loop has gone quiet without advancing virtual time"]
